@@ -787,11 +787,14 @@ Proof.
         -- replace (which =? 2) with false by lia. split; [|reflexivity]. intros _.
            exists namealg, attrs, h, ds, hsz. repeat split; try assumption; lia.
         -- unfold pass, fail. split; [discriminate|].
-           intros (a & b & c & d & e & [= <- <- <- <-] & _ & [= <-] & Hd). lia.
+           intros (a & b & c & d & e & Hp & _ & Hh & Hd). injection Hp as <- <- <- <-.
+           rewrite Eh in Hh. injection Hh as <-. lia.
       * unfold pass. split; [discriminate|].
-        intros (a & b & c & d & e & [= <- <- <- <-] & _ & Hh & _). discriminate Hh.
+        intros (a & b & c & d & e & Hp & _ & Hh & _). injection Hp as <- <- <- <-.
+        rewrite Eh in Hh. discriminate Hh.
     + unfold pass, fail. split; [discriminate|].
-      intros (a & b & c & d & e & [= <- <- <- <-] & Hx & _). discriminate Hx.
+      intros (a & b & c & d & e & Hp & Hx & _). injection Hp as <- <- <- <-.
+      rewrite Ea in Hx. discriminate Hx.
   - unfold pass, ierr. split; [discriminate|]. intros (a & b & c & d & e & Hx & _). discriminate Hx.
 Qed.
 
@@ -965,4 +968,284 @@ Proof.
   - exists 17, 2. split; [reflexivity|]. right. split; [reflexivity|]. vm_compute. discriminate.
   - exists 16, 1. split; [reflexivity|]. intros (_ & [(_ & H)|(H & _)]); [apply H; reflexivity|discriminate].
   - exists 17, 0, 2. split; [|reflexivity]. split; [reflexivity|]. right. split; [reflexivity|]. vm_compute. discriminate.
+Qed.
+
+(** * 4. Boot Guard provisioning and manifest-security verdicts: fail closed *)
+
+(** the disqualifying conditions SaneMEBootGuardProvisioning names *)
+Definition me_disqualified (v : Z) (f : fws6) (b : bginfo) : Prop :=
+  f_bypass f = true \/ f_invalid f = true \/ f_fpf_lock f = false \/
+  f_eep f = 0 \/ f_eep f = 2 \/ f_protect_bios f = false \/
+  (v = 2 /\ b_force_anchor b = false) \/ b_verified b = false \/ b_revoked b = true \/
+  f_bg_disable f = true \/ b_capability b = false.
+
+Theorem SaneME_exact : forall v f b,
+  (sane_me v f b = good <-> ~ me_disqualified v f b) /\
+  (sane_me v f b = good \/ sane_me v f b = bad).
+Proof.
+  intros v [pb by_ inv eep bsvn ksvn kid dis lock] [fa_ ver rev cap].
+  unfold sane_me, me_disqualified, good, bad. cbn [f_bypass f_invalid f_fpf_lock f_eep f_protect_bios
+    f_bg_disable b_force_anchor b_verified b_revoked b_capability].
+  destruct pb, by_, inv, dis, lock, fa_, ver, rev, cap; cbn [negb andb];
+    rewrite ?Bool.andb_true_r, ?Bool.andb_false_r;
+    brk; (split; [split; [first [discriminate | intros _ H; lia] | first [reflexivity | intros H; exfalso; apply H; lia]] | auto]).
+Qed.
+
+Theorem SaneME_failclosed : forall v f b, me_disqualified v f b -> sane_me v f b <> good.
+Proof. intros v f b H E. apply (proj1 (SaneME_exact v f b)) in E. contradiction. Qed.
+
+Theorem StrictSaneME_exact : forall v f b,
+  strict_sane_me v f b = good <-> f_eep f = 3 /\ ~ me_disqualified v f b.
+Proof.
+  intros v f b. unfold strict_sane_me. destruct (f_eep f =? 3) eqn:E; cbn [negb].
+  - rewrite (proj1 (SaneME_exact v f b)). split; [intros H; split; [lia|exact H]|intros [_ H]; exact H].
+  - unfold bad, good. split; [discriminate|]. intros [H _]. lia.
+Qed.
+
+(** ... read off the raw registers: HFSTS6 and MSR 13Ah *)
+Theorem SaneME_raw_failclosed : forall strict v hfsts6 msr,
+  sane_me_raw strict v hfsts6 msr = good ->
+  bit hfsts6 4 = false /\ bit hfsts6 5 = false /\ bit hfsts6 30 = true /\
+  (bits hfsts6 6 3 <> 0 /\ bits hfsts6 6 3 <> 2) /\ (strict = true -> bits hfsts6 6 3 = 3) /\
+  bit hfsts6 3 = true /\ (v = 2 -> bit msr 4 = true) /\ bit msr 6 = true /\ bit msr 7 = false /\
+  bit hfsts6 28 = false /\ bit msr 32 = true.
+Proof.
+  intros strict v h m H. unfold sane_me_raw in H.
+  assert (N : ~ me_disqualified v (decode_hfsts6 h) (decode_bgmsr m) /\ (strict = true -> bits h 6 3 = 3)).
+  { destruct strict.
+    - apply StrictSaneME_exact in H. destruct H as [H1 H2]. split; [exact H2|intros _; exact H1].
+    - apply (proj1 (SaneME_exact _ _ _)) in H. split; [exact H|discriminate]. }
+  destruct N as [N S]. unfold me_disqualified in N.
+  cbn [decode_hfsts6 decode_bgmsr f_bypass f_invalid f_fpf_lock f_eep f_protect_bios
+    f_bg_disable b_force_anchor b_verified b_revoked b_capability] in N.
+  repeat split; try exact S;
+    try (destruct (bit h 4), (bit h 5), (bit h 30), (bit h 3), (bit h 28), (bit m 6), (bit m 7), (bit m 32);
+         first [reflexivity | exfalso; apply N; tauto]).
+  - intros E. apply N. tauto.
+  - intros E. apply N. tauto.
+  - intros E. destruct (bit m 4); [reflexivity|]. exfalso. apply N. tauto.
+Qed.
+
+(** ValidateMEAgainstManifests *)
+Theorem ValidateME_exact : forall v f bpmsvn kmsvn kmid,
+  (v = 1 -> (validate_me v f bpmsvn kmsvn kmid = good <->
+             f_bpmsvn f = bpmsvn /\ f_kmsvn f = kmsvn /\ f_kmid f = kmid)) /\
+  (v = 2 -> (validate_me v f bpmsvn kmsvn kmid = good <->
+             f_bpmsvn f <= bpmsvn /\ f_kmsvn f = kmsvn /\ f_kmid f = kmid)).
+Proof.
+  intros. unfold validate_me, good, bad. split; intros ->; cbn [Z.eqb];
+    brk; split; intros; try discriminate; try reflexivity; lia.
+Qed.
+
+(** every verdict that switches on the Boot Guard version reports success for
+    a version that is neither 1.0 nor 2.0, whatever the manifests say *)
+Theorem BG_unknown_version_failopen_refuted : forall v, v <> 1 -> v <> 2 ->
+  (forall f a b c, validate_me v f a b c = good) /\
+  (forall nse algs lsize sig, bpm_crypto v nse algs lsize sig = good) /\
+  (forall a1 algs, km_crypto v a1 algs = good) /\
+  (forall nse flags pbet base0 vtdbar txte nseg, sane_bpm v nse flags pbet base0 vtdbar txte nseg = good) /\
+  (forall nse flags pbet base0 vtdbar txte nseg, strict_sane_bpm v nse flags pbet base0 vtdbar txte nseg = good).
+Proof.
+  intros v H1 H2.
+  assert (E1 : (v =? 1) = false) by lia. assert (E2 : (v =? 2) = false) by lia.
+  unfold validate_me, bpm_crypto, km_crypto, strict_sane_bpm, sane_bpm. rewrite E1, E2.
+  repeat split.
+Qed.
+
+(** BPMCryptoSecure / KMCryptoSecure *)
+Theorem BPMCrypto_v1_exact : forall nse algs lsize sig, nse <> 0 ->
+  (bpm_crypto 1 nse algs lsize sig = good <-> insecure_alg (hd 0 algs) = false /\ insecure_alg sig = false).
+Proof.
+  intros nse algs lsize sig Hn. unfold bpm_crypto, good, bad. cbn [Z.eqb].
+  replace (nse =? 0) with false by lia.
+  destruct (insecure_alg (hd 0 algs)), (insecure_alg sig); split; intros; try discriminate; try reflexivity; try tauto;
+    destruct H; discriminate.
+Qed.
+
+Theorem BPMCrypto_v2_real : forall nse algs lsize sig, nse <> 0 ->
+  (bpm_crypto 2 nse algs lsize sig = good <->
+   insecure_alg sig = false /\ (lsize < 2 -> forall a, In a algs -> insecure_alg a = false)).
+Proof.
+  intros nse algs lsize sig Hn. unfold bpm_crypto, good, bad. cbn [Z.eqb].
+  replace (nse =? 0) with false by lia.
+  destruct (existsb (fun a => insecure_alg a && (lsize <? 2)) algs) eqn:Ex.
+  - split; [discriminate|]. intros [_ H]. apply existsb_exists in Ex. destruct Ex as (a & Ha & Hb).
+    apply andb_prop in Hb. destruct Hb as [Hb1 Hb2]. rewrite (H ltac:(lia) a Ha) in Hb1. discriminate.
+  - destruct (insecure_alg sig); [split; [discriminate|intros [H _]; discriminate]|].
+    split; [|reflexivity]. intros _. split; [reflexivity|]. intros Hl a Ha.
+    destruct (insecure_alg a) eqn:Ea; [|reflexivity].
+    assert (existsb (fun a => insecure_alg a && (lsize <? 2)) algs = true).
+    { apply existsb_exists. exists a. split; [assumption|]. rewrite Ea. cbn. lia. }
+    congruence.
+Qed.
+
+(** DigestList.Size is the byte size of the list (>= 4): the guard never fires *)
+Theorem BPMCrypto_v2_sha1_refuted :
+  exists algs lsize sig, 4 <= lsize /\ insecure_alg (hd 0 algs) = true /\
+    bpm_crypto 2 1 algs lsize sig = good.
+Proof. exists [4], 28, 11. split; [lia|]. split; reflexivity. Qed.
+
+Theorem KMCrypto_exact : forall a1 algs,
+  (km_crypto 1 a1 algs = good <-> insecure_alg a1 = false /\ insecure_alg (hd 0 algs) = false) /\
+  (km_crypto 2 a1 algs = good <-> insecure_alg a1 = false /\ forall a, In a algs -> insecure_alg a = false).
+Proof.
+  intros a1 algs. unfold km_crypto, good, bad. cbn [Z.eqb]. split.
+  - destruct (insecure_alg a1), (insecure_alg (hd 0 algs)); split; intros; try discriminate; try reflexivity; try tauto;
+      destruct H; discriminate.
+  - destruct (insecure_alg a1); [split; [discriminate|intros [H _]; discriminate]|].
+    destruct (existsb insecure_alg algs) eqn:Ex.
+    + split; [discriminate|]. intros [_ H]. apply existsb_exists in Ex. destruct Ex as (a & Ha & Hb).
+      rewrite (H a Ha) in Hb. discriminate.
+    + split; [|reflexivity]. intros _. split; [reflexivity|]. intros a Ha.
+      destruct (insecure_alg a) eqn:Ea; [|reflexivity].
+      assert (existsb insecure_alg algs = true) by (apply existsb_exists; exists a; auto). congruence.
+Qed.
+
+(** SaneBPMSecurityProps: none of the named disqualifying conditions holds
+    (DMA protection off, PCR-7 authority measurement off, PBET 0, no IBB
+    segment, S-ACM not extending static PCRs) *)
+Definition bpm_ok (v flags pbet base0 vtdbar : Z) (txte : option Z) (nseg : Z) : Prop :=
+  (v = 1 -> bit flags 0 = true) /\
+  (v = 2 -> bit flags 0 = true \/ base0 <> 0 \/ vtdbar <> 0) /\
+  bit flags 2 = true /\ Z.land pbet 15 <> 0 /\ 1 <= nseg /\
+  (v = 2 -> exists cf, txte = Some cf /\ bit cf 9 = false).
+
+Lemma sane_bpm_v1 nse flags pbet base0 vtdbar txte nseg : nse <> 0 ->
+  (sane_bpm 1 nse flags pbet base0 vtdbar txte nseg = good <->
+   bit flags 0 = true /\ bit flags 2 = true /\ Z.land pbet 15 <> 0 /\ 1 <= nseg).
+Proof.
+  intros Hn. unfold sane_bpm, good, bad. cbn [Z.eqb]. replace (nse =? 0) with false by lia.
+  destruct (bit flags 0), (bit flags 2); cbn [negb];
+    destruct (Z.land pbet 15 =? 0) eqn:Ep; destruct (nseg <? 1) eqn:Es;
+    split; intros H; try discriminate H; try reflexivity;
+    try (decompose [and] H; first [discriminate | lia]).
+  repeat split; lia.
+Qed.
+
+Lemma sane_bpm_v2 nse flags pbet base0 vtdbar cf nseg : nse <> 0 ->
+  (sane_bpm 2 nse flags pbet base0 vtdbar (Some cf) nseg = good <->
+   (bit flags 0 = true \/ base0 <> 0 \/ vtdbar <> 0) /\ bit flags 2 = true /\ Z.land pbet 15 <> 0 /\
+   bit cf 9 = false /\ 1 <= nseg).
+Proof.
+  intros Hn. unfold sane_bpm, good, bad. cbn [Z.eqb]. replace (nse =? 0) with false by lia.
+  destruct (bit flags 0), (bit flags 2), (bit cf 9); cbn [negb andb];
+    destruct (base0 =? 0) eqn:Eb; destruct (vtdbar =? 0) eqn:Ev; cbn [andb];
+    destruct (Z.land pbet 15 =? 0) eqn:Ep; destruct (nseg <? 1) eqn:Es;
+    split; intros H; try discriminate H; try reflexivity;
+    try (decompose [and or] H; first [discriminate | lia]);
+    repeat split; try lia; try (left; reflexivity); try (right; left; lia); try (right; right; lia).
+Qed.
+
+Theorem SaneBPM_failclosed : forall v nse flags pbet base0 vtdbar txte nseg,
+  v = 1 \/ v = 2 ->
+  sane_bpm v nse flags pbet base0 vtdbar txte nseg = good ->
+  bpm_ok v flags pbet base0 vtdbar txte nseg.
+Proof.
+  intros v nse flags pbet base0 vtdbar txte nseg [-> | ->] H.
+  - assert (Hn : nse <> 0) by (intros ->; discriminate H).
+    apply sane_bpm_v1 in H; [|assumption]. destruct H as (H0 & H2 & Hp & Hs).
+    unfold bpm_ok. repeat split; try assumption; intros; lia.
+  - assert (Hn : nse <> 0) by (intros ->; discriminate H).
+    destruct txte as [cf|].
+    + apply sane_bpm_v2 in H; [|assumption]. destruct H as (H0 & H2 & Hp & H9 & Hs).
+      unfold bpm_ok. repeat split; try assumption; try (intros; lia).
+      intros _. exists cf. split; [reflexivity|assumption].
+    + exfalso. unfold sane_bpm in H. cbn [Z.eqb] in H. replace (nse =? 0) with false in H by lia.
+      brk; discriminate H.
+Qed.
+
+Theorem SaneBPM_accepts : forall v nse flags pbet base0 vtdbar txte nseg,
+  v = 1 \/ v = 2 -> nse <> 0 ->
+  bpm_ok v flags pbet base0 vtdbar txte nseg ->
+  sane_bpm v nse flags pbet base0 vtdbar txte nseg = good.
+Proof.
+  intros v nse flags pbet base0 vtdbar txte nseg [-> | ->] Hn (K1 & K2 & K3 & K4 & K5 & K6).
+  - apply sane_bpm_v1; [assumption|]. repeat split; try assumption. apply K1. reflexivity.
+  - destruct (K6 eq_refl) as (cf & -> & H9). apply sane_bpm_v2; [assumption|].
+    repeat split; try assumption. apply K2. reflexivity.
+Qed.
+
+Theorem StrictSaneBPM_failclosed : forall v nse flags pbet base0 vtdbar txte nseg,
+  v = 1 \/ v = 2 ->
+  strict_sane_bpm v nse flags pbet base0 vtdbar txte nseg = good ->
+  bpm_ok v flags pbet base0 vtdbar txte nseg /\ bit flags 3 = true /\
+  (v = 2 -> exists cf, txte = Some cf /\ bits cf 5 3 = 2).
+Proof.
+  intros v nse flags pbet base0 vtdbar txte nseg Hv H.
+  assert (S : sane_bpm v nse flags pbet base0 vtdbar txte nseg = good /\ bit flags 3 = true /\
+              (v = 2 -> exists cf, txte = Some cf /\ bits cf 5 3 = 2)).
+  { unfold strict_sane_bpm in H. destruct Hv as [-> | ->]; cbn [Z.eqb] in H.
+    - destruct (nse =? 0); [discriminate|].
+      destruct (bit flags 2); cbn [negb] in H; [|discriminate].
+      destruct (bit flags 3); cbn [negb] in H; [|discriminate].
+      split; [exact H|]. split; [reflexivity|]. intros; lia.
+    - destruct (nse =? 0); [discriminate|].
+      destruct (bit flags 2); cbn [negb] in H; [|discriminate].
+      destruct (bit flags 3); cbn [negb] in H; [|discriminate].
+      destruct txte as [cf|]; [|discriminate].
+      destruct (bits cf 5 3 =? 2) eqn:Ec; cbn [negb] in H; [|discriminate].
+      split; [exact H|]. split; [reflexivity|]. intros _. exists cf. split; [reflexivity|lia]. }
+  destruct S as (S1 & S2 & S3). split; [|split; assumption].
+  exact (SaneBPM_failclosed v nse flags pbet base0 vtdbar txte nseg Hv S1).
+Qed.
+
+(** no verdict at all: empty SE list, CBnT BPM without TXT element *)
+Theorem SaneBPM_panics_refuted :
+  (forall v flags pbet base0 vtdbar txte nseg, v = 1 \/ v = 2 ->
+     sane_bpm v 0 flags pbet base0 vtdbar txte nseg = VPanic) /\
+  (exists flags pbet nseg, bit flags 0 = true /\ bit flags 2 = true /\ Z.land pbet 15 <> 0 /\ 1 <= nseg /\
+     sane_bpm 2 1 flags pbet 0 0 None nseg = VPanic).
+Proof.
+  split.
+  - intros v flags pbet base0 vtdbar txte nseg [-> | ->]; reflexivity.
+  - exists 13, 15, 1. repeat split; try reflexivity; try lia. vm_compute. discriminate.
+Qed.
+
+(** * 5. Single-register verdicts: exact bit patterns *)
+
+Theorem IBBMeasured_exact : forall w, ibb_measured w = pass <-> bit w 63 = true /\ bit w 62 = false.
+Proof. intros. unfold ibb_measured, pass, fail. destruct (bit w 62), (bit w 63); cbn; split; intros; try discriminate; try reflexivity; try tauto; destruct H; discriminate. Qed.
+
+Theorem IBBIsTrusted_exact : forall w, ibb_trusted w = pass <-> bit w 63 = true /\ bit w 59 = true.
+Proof. intros. unfold ibb_trusted, pass, fail. destruct (bit w 59), (bit w 63); cbn; split; intros; try discriminate; try reflexivity; try tauto; destruct H; discriminate. Qed.
+
+Theorem ValidTXTRegister_exact : forall a p b,
+  valid_txt_register a p b = good <-> bit a 31 = true /\ bit a 15 = true /\ bit p 6 = false /\ bit b 31 = true.
+Proof.
+  intros. unfold valid_txt_register, good, bad.
+  destruct (bit a 31), (bit a 15), (bit p 6), (bit b 31); cbn; split; intros; try discriminate; try reflexivity; try tauto;
+    decompose [and] H; discriminate.
+Qed.
+
+(** SDM: CPUID.1:ECX[11] = 1 says IA32_DEBUG_INTERFACE exists; the interface is
+    safe when the MSR does not exist or is locked, disabled and not strapped *)
+Definition debug_spec (ecx msr : Z) : Prop :=
+  bit ecx 11 = false \/ (bit msr 31 = false /\ bit msr 30 = true /\ bit msr 0 = false).
+
+Theorem DebugInterface_real : forall ecx msr,
+  debug_locked ecx msr = pass <->
+  bit ecx 11 = true \/ (bit msr 31 = false /\ bit msr 30 = true /\ bit msr 0 = false).
+Proof.
+  intros. unfold debug_locked, pass, fail.
+  destruct (bit ecx 11), (bit msr 31), (bit msr 30), (bit msr 0); cbn; split; intros; try discriminate; try reflexivity; try tauto;
+    decompose [or and] H; discriminate.
+Qed.
+
+Theorem DebugInterface_inverted_refuted :
+  exists ecx msr, debug_locked ecx msr = pass /\ ~ debug_spec ecx msr.
+Proof.
+  exists 2048, 1. split; [reflexivity|]. unfold debug_spec. intros [H|(_ & H & _)]; vm_compute in H; discriminate.
+Qed.
+
+Theorem SmallChecks_exact :
+  (forall e, no_sinit_errors e = pass <-> e = 3221225473) /\
+  (forall d, dpr_locked d = pass <-> bit d 0 = true) /\
+  (forall ver size nproc, biosdata_valid ver size nproc = pass <-> 2 <= ver /\ 8 <= size /\ nproc <> 0) /\
+  (forall sig, weybridge_or_later sig = pass <-> bits sig 8 15 = 6) /\
+  (forall fc, txt_not_disabled fc = pass <->
+     Z.land (bits fc 8 511) 255 = 255 \/ Z.land (bits fc 8 511) 256 = 256) /\
+  (forall fc, ia32_feature_ctrl fc = pass <-> bit fc 0 = true).
+Proof.
+  unfold no_sinit_errors, dpr_locked, biosdata_valid, weybridge_or_later, txt_not_disabled, ia32_feature_ctrl, pass, fail.
+  repeat split; intros; brk; try discriminate; try reflexivity; try lia; try assumption.
 Qed.
